@@ -107,7 +107,7 @@ class C15(Config):
               "From V.C15 Require Import Model Spec Sem QModel Corr Wf.\n"
               "Local Open Scope Z_scope.")
     bin = "c15"
-    release_too = True
+    release_too = False   # the queue code has no overflow- or debug_assert-dependent paths (saturating BlockHeight arithmetic, assert!)
     n_tags = None
     harness_timeout = 2400
     shard_size = 1200
